@@ -33,6 +33,7 @@ def check_d1_d2(ctx) -> None:
     f = ctx.repo.method('Reservoir', 'Calculate', 'geophires_x/Reservoir.py')
     rel = f.module.rel
     top = list(f.node.body)
+    ctx.local_anchor(f, 'maxdepth', 'temperatureindex', 'intersecttemperature', 'totaldepth')
     caps = [s for s in top if (isinstance(s, ast.If) and norm(s.test) in ('self.depth.value > maxdepth', 'maxdepth < self.depth.value') and
                                any(isinstance(x, ast.Assign) and norm(x.targets[0]) == 'self.depth.value' and norm(x.value) == 'maxdepth' for x in s.body))
             or (isinstance(s, ast.Assign) and norm(s.targets[0]) == 'self.depth.value' and norm(s.value) in ('min(self.depth.value, maxdepth)', 'min(maxdepth, self.depth.value)'))]
